@@ -121,6 +121,8 @@ def run(ctx, run):
     _mutex(ctx, run)
     _walk_goes_on(ctx, run, P.need("vbi_event_handler_add", UNIT))
     _walk_goes_on(ctx, run, P.need("vbi_event_handler_register", UNIT))
+    _mask_from_complete_walk(ctx, run, P.need("vbi_event_handler_add", UNIT))
+    _mask_from_complete_walk(ctx, run, P.need("vbi_event_handler_register", UNIT))
     _activation_desyncs(ctx, run)
     _gate_mask_agreement(ctx, run)
     _identity_written_at_creation(ctx, run)
@@ -483,6 +485,45 @@ def _holds_only_allocation(f, nm, depth):
             else:
                 return False
     return seen_alloc
+
+
+def _mask_from_complete_walk(ctx, run, f):
+    """vbi_event_handler_register / _add hand vbi_event_enable() the union of the masks of all records left on the list;
+    the union is accumulated while walking the list.  The call must therefore not be reachable from inside the walk
+    loop except through the loop test that found the end of the list: a walk left early (break after an update) hands
+    over a union that misses - or, computed from the old union, still contains - the events of the records behind."""
+    from .. import loops
+    run.touch(f)
+    L = loops.natural_loops(f)
+    calls = [(b, i) for b, i in flow.all_events(f) if f.exprs[i]["k"] == "call" and f.exprs[i].get("callee") == "vbi_event_enable"]
+    n = 0
+    for head, body in L.items():
+        t = f.blocks[head].term
+        if not t or "cond" not in t:
+            continue
+        # the list walk: its test reads the list link (`eh = *ehp`, `NULL != (eh = *ehp)`, `*ehp`, `eh`)
+        txt = ex.pretty(f, t["cond"])
+        if "ehp" not in txt and "->next" not in txt and "eh" not in txt:
+            continue
+        stay = [s2 for s2, lab in f.edges(head) if s2 in body]
+        if not stay:
+            continue
+        n += 1
+        for cb, ci in calls:
+            if cb in body:
+                continue
+            key = "RF-CORR:%s:mask-from-complete-walk" % f.name
+            reach = set()
+            for s2 in stay:
+                reach |= flow.reach_from(f, s2, avoid={head})
+            if cb in reach:
+                run.violation("RF-CORR", key, "`%s` is reachable from inside the list walk without passing the end-of-list test: the "
+                              "event mask it installs was not accumulated over every registered handler, so events dropped by a "
+                              "handler stay enabled (or events of the records behind are switched off)" % ex.pretty(f, ci)[:50],
+                              ex.loc(f, ci), witness={"function": f.name})
+            else:
+                run.holds("RF-CORR", key, "vbi_event_enable() is reached from the list walk only through its end-of-list test", ex.loc(f, ci))
+    run.floor("list walks in front of vbi_event_enable in %s" % f.name, n, 1)
 
 
 def _walk_goes_on(ctx, run, f):
